@@ -15,14 +15,21 @@ TECHNIQUE = (
 )
 CUT = 1e-5
 TOL = 1e-5
+# sub-check 'solver-cut' (u in [0.5, 1-mellin_cut]): calibrated bounds = ~4 x the worst deviation of the unchanged tree,
+# measured per group over 6 generator seeds x 400 cases (5832 points): node 5.9e-4, top 2.4e-4, point 2.0e-2, near-one 8.8e-2
+SOLVER_TOL = {"node": 2.5e-3, "top": 1e-3, "point": 8e-2, "near-one": 0.35}
+TOP_BAND = (0.01, 0.052)  # -ln x of the 'top' group: x in (0.95, 0.99]
 RULE = (
     "Log grids of 4-12 points, geometric with <= 25% jitter of the log spacing, x_min in [1e-6, 0.1], last point 1, "
     "degree 1-4 <= points-1; per case one contour id (singlet-like 100/21/90/22/101 -> offset 1, non-singlet-like "
     "10101/10200/10204/200/10103 -> offset 0) and up to 4 inversion points: nodes (never x=1), and for degree >= 2 "
     "points inside an area (fraction 0.02-0.98 of its log width), just below a node (log distance 1e-9..1e-2 of the "
-    "area width; 1e-3..1e-2 below x=1) and just above a node; every basis function j of the grid is inverted at every point: "
+    "area width; 1e-3..1e-2 below x=1), just above a node, and 'top' points x = 1-t, t log-uniform in [0.01, 0.05]; every basis function j of the grid is inverted at every point: "
     f"int_0.5^(1-{CUT:g}) Re[integrand] du (scipy quad, epsrel 1e-10) must equal p_j(x) within {TOL:g}, p_j(x) from the exact "
-    "reference basis (0/1 at nodes) and eko's own evaluate_x. Non-trivial = (degree >= 2 and a point that is not a node) or a singlet-like "
+    "reference basis (0/1 at nodes) and eko's own evaluate_x. Sub-check 'solver-cut': the part of the same integral "
+    "over the range the runner integrates, u in [0.5, 1-mellin_cut] (default read from Operator.__init__, 0.05), must "
+    "equal p_j(x) within a calibrated bound per group (node / top: 0.01 <= -ln x < 0.052 / near-one: -ln x < 0.01 / "
+    "point: the rest). Non-trivial = (degree >= 2 and a point that is not a node) or a singlet-like "
     "contour; distinct by the whole case."
 )
 ASSUMPTIONS = [
@@ -38,6 +45,12 @@ ASSUMPTIONS = [
     "cancels the boundary term) and the integration truncated at 1-CUT is off by 2*CUT = 2e-5 there (measured at "
     "x = 1-5e-9), a limitation of the quadrature oracle, not of the representation; the runner never inverts there (its "
     "highest inversion point below 1 is the last-but-one node)",
+    "solver-cut bounds are calibrated, not derived: worst deviation of the unchanged tree over 6 generator seeds x 400 "
+    "cases (5832 points): nodes 5.9e-4 (bound 2.5e-3), top band x in (0.95, 0.99] 2.4e-4 (bound 1e-3), other non-node "
+    "points 2.0e-2 (just below a node / coarse cells at small x; bound 8e-2), points with -ln x < 0.01 8.8e-2 (bound "
+    "0.35: there the truncated integral of the unchanged tree is itself inaccurate, 1.8e-3 at x=0.993, 5.7e-3 at 0.995, "
+    "1.8e-2 at 0.997, 5.7e-2 at 0.999, so 'top' points are drawn from t >= 0.01 only); the runner never inverts at "
+    "non-node points, so only the node bound describes the accuracy of computed operators",
     "degree-1 grids are inverted at nodes only (the property claims arbitrary points for degree >= 2 only)",
     "interpreted mode (NUMBA_DISABLE_JIT=1); QuadKerBase is plain Python, Path a jitclass, log_evaluate_Nx njit",
 ]
@@ -75,7 +88,7 @@ def strategy(tier):
         grid = [math.exp(v) for v in logs]
         grid[-1] = 1.0
         mode0 = draw(st.sampled_from(SINGLET_LIKE[:1] * 3 + SINGLET_LIKE[1:] + NS_LIKE[:1] * 3 + NS_LIKE[1:]))
-        kinds = ["node"] if deg == 1 else ["node", "inside", "inside", "below", "above"]
+        kinds = ["node"] if deg == 1 else ["top", "node", "inside", "inside", "below", "above", "top"]
         pts = []
         for _ in range(draw(st.integers(2, 4))):
             kind = draw(st.sampled_from(kinds))
@@ -83,6 +96,9 @@ def strategy(tier):
             a, b = math.log(grid[i]), math.log(grid[i + 1])
             if kind == "node":
                 x = grid[i]
+            elif kind == "top":
+                # upper 5% of the range, where the solver's truncated path is most sensitive to the contour radius
+                x = 1.0 - math.exp(draw(fl(math.log(1e-2), math.log(0.05))))
             elif kind == "inside":
                 x = math.exp(a + draw(fl(0.02, 0.98)) * (b - a))
             elif kind == "below":
@@ -101,18 +117,34 @@ def strategy(tier):
     return case()
 
 
-def invert(areas, logx, mode0, is_log=True):
-    """Mellin inversion with the solver's own path and integrand, integrated by QUADPACK."""
+def solver_cut():
+    """The runner's default truncation of the Talbot parameter, read from the code under test."""
+    import inspect
+
+    from eko.evolution_operator import Operator
+
+    return float(inspect.signature(Operator.__init__).parameters["mellin_cut"].default)
+
+
+def invert(areas, logx, mode0, is_log=True, cut=None):
+    """Mellin inversion with the solver's own path and integrand, integrated by QUADPACK.
+
+    Returns (integral over u in [0.5, 1-cut], integral over [0.5, 1-CUT], quad error estimate): the first is what the
+    solver's integration range gives, the second the (practically) complete inversion.
+    """
     from scipy import integrate
 
     from eko.evolution_operator.quad_ker import QuadKerBase
+
+    cut = solver_cut() if cut is None else cut
 
     def f(u):
         return float(np.real(QuadKerBase(u, is_log, logx, mode0).integrand(areas)))
 
     with np.errstate(over="ignore", invalid="ignore"):
-        val, err = integrate.quad(f, 0.5, 1.0 - CUT, epsabs=1e-13, epsrel=1e-10, limit=400)[:2]
-    return val, err
+        head, e1 = integrate.quad(f, 0.5, 1.0 - cut, epsabs=1e-13, epsrel=1e-10, limit=400)[:2]
+        tail, e2 = integrate.quad(f, 1.0 - cut, 1.0 - CUT, epsabs=1e-13, epsrel=1e-10, limit=400)[:2]
+    return head, head + tail, e1 + e2
 
 
 def check_case(case):
@@ -141,6 +173,8 @@ def check_case(case):
     ref = L.RefBasis(nodes, deg)
 
     worst = 0.0
+    cut = solver_cut()
+    worst_cut = {}
     for kind, x in case["points"]:
         logx = float(np.log(np.float64(x)))
         if kind == "node":
@@ -150,7 +184,7 @@ def check_case(case):
             want = [float(p) for p in ref.row(logx)]
         for j in range(n):
             try:
-                val, err = invert(areas[j], logx, mode0)
+                val_cut, val, err = invert(areas[j], logx, mode0, cut=cut)
             except Exception as e:  # noqa: BLE001 - the integrand must be evaluable on the whole path
                 res.fail(exc_bucket(f"{ID}/integrand/{where}", e), f"j={j} x={x!r} deg={deg}: {e!r}")
                 return res
@@ -175,5 +209,23 @@ def check_case(case):
                     f"(reference {want[j]!r})",
                 )
                 return res
+            # sub-check 'solver-cut': the same inversion over the range the solver integrates, u in [0.5, 1-mellin_cut]
+            grp = "node" if kind == "node" else "top" if TOP_BAND[0] <= -logx < TOP_BAND[1] else "near-one" if -logx < TOP_BAND[0] else "point"
+            dcut = abs(val_cut - want[j])
+            worst_cut[grp] = max(worst_cut.get(grp, 0.0), dcut)
+            if not dcut <= SOLVER_TOL[grp]:
+                res.fail(
+                    f"{ID}/solver-cut/{grp}",
+                    f"grid n={n} deg={deg} mode0={mode0} x={x!r} ({kind}) j={j}: integral over u in [0.5, {1 - cut:g}] = "
+                    f"{val_cut!r}, x-space p_j(x) = {want[j]!r} (complete inversion {val!r}), |dev| {dcut:.3e} > "
+                    f"{SOLVER_TOL[grp]:g}",
+                )
+                return res
+    for grp, d in worst_cut.items():
+        if d <= 1e-5:
+            res.classes.append(f"solver-cut/{grp}/dev<=1e-05")
+        else:  # 1-2-5 bins: the evidence shows how much of the calibrated bound is used
+            dec = 10.0 ** math.floor(math.log10(d))
+            res.classes.append(f"solver-cut/{grp}/dev<={next(m for m in (1, 2, 5, 10) if d <= m * dec) * dec:.0e}")
     res.classes.append(f"worst-dev={'<=1e-9' if worst <= 1e-9 else '<=1e-7' if worst <= 1e-7 else '<=1e-6' if worst <= 1e-6 else '<=1e-5'}")
     return res
